@@ -1,6 +1,7 @@
 package main
 
 import (
+	"path/filepath"
 	"bytes"
 	"encoding/json"
 	"fmt"
@@ -322,9 +323,14 @@ remote_read:
 
 // settings written with an EMPTY value: each is a setting of its own (an empty regex matches only the empty string, the
 // default matches everything; an empty separator / replacement is not the default ";" / "$1")
-const chBase4 = `scrape_configs:
+const chBase4 = `rule_files:
+- rules/*.yml
+scrape_configs:
 - job_name: e
   metrics_path: /m
+  bearer_token_file: secrets/token
+  tls_config:
+    ca_file: certs/ca.crt
   relabel_configs:
   - source_labels: [a]
     regex: ''
@@ -601,6 +607,23 @@ func cfghashRun(in interface{}) (string, interface{}, map[string]int) {
 		}
 	} else {
 		h2, err2 = chComputeMaybeChild(edited, !c.ChildBase)
+	}
+	// the coordinator loads its configuration from a FILE, the sidecars get the same bytes raw: one content, one hash,
+	// wherever the file lies (relative paths in the configuration must not make the directory part of the hash)
+	if dir, errd := ioutil.TempDir(scratchDir(), "cfgfile"); errd == nil {
+		sub := filepath.Join(dir, fmt.Sprintf("d%d", c.Edit%3))
+		_ = os.MkdirAll(sub, 0o755)
+		file := filepath.Join(sub, "prometheus.yml")
+		if errw := ioutil.WriteFile(file, []byte(edited), 0o644); errw == nil {
+			mf, mr := prom.NewConfigManager(), prom.NewConfigManager()
+			ef, er := mf.ReloadFromFile(file), mr.ReloadFromRaw([]byte(edited))
+			st["via_file"]++
+			if ef == nil && er == nil && mf.ConfigInfo().ConfigHash != mr.ConfigInfo().ConfigHash {
+				ob.SameAsFresh = false
+				ob.ServiceHashes += fmt.Sprint(" file:", mf.ConfigInfo().ConfigHash, " raw:", mr.ConfigInfo().ConfigHash)
+			}
+		}
+		_ = os.RemoveAll(dir)
 	}
 	if err1 != nil || err2 != nil {
 		ob.LoadErr = fmt.Sprint(err1, err2)
